@@ -268,7 +268,8 @@ fn compare_roundtrip(input: &Attributes, output: &Attributes, what: &str) -> Vec
 
 struct CaseOut {
     obs: Vec<String>,
-    oracle: Vec<String>,
+    oracle: Vec<String>, // C14 oracle messages
+    other: Vec<String>,  // messages for other properties, `<pid> <text>`
 }
 
 fn first_unsupported(a: &Attributes) -> Option<VariantType> {
@@ -276,7 +277,7 @@ fn first_unsupported(a: &Attributes) -> Option<VariantType> {
 }
 
 fn run_map(a: &Attributes, stats: &mut BTreeMap<String, u64>) -> CaseOut {
-    let mut o = CaseOut { obs: Vec::new(), oracle: Vec::new() };
+    let mut o = CaseOut { obs: Vec::new(), oracle: Vec::new(), other: Vec::new() };
     for (_, v) in a.iter() {
         *stats.entry(format!("type_{:?}", v.ty())).or_insert(0) += 1;
     }
@@ -324,7 +325,7 @@ fn run_map(a: &Attributes, stats: &mut BTreeMap<String, u64>) -> CaseOut {
 }
 
 fn run_bytes(bytes: &[u8], d: Dec, stats: &mut BTreeMap<String, u64>) -> CaseOut {
-    let mut o = CaseOut { obs: Vec::new(), oracle: Vec::new() };
+    let mut o = CaseOut { obs: Vec::new(), oracle: Vec::new(), other: Vec::new() };
     o.obs.push(format!("dec {}", dec_string(&d)));
     match &d {
         Dec::Ok(a) => {
@@ -343,14 +344,21 @@ fn run_bytes(bytes: &[u8], d: Dec, stats: &mut BTreeMap<String, u64>) -> CaseOut
             }
         }
         Dec::Err(c) => {
-            *stats.entry(format!("bytes_dec_err_{c:x}")).or_insert(0) += 1;
+            let class = match *c {
+                0x500..=0x5ff => "invalid_type_id".to_string(),
+                0xa00..=0xaff => "bad_rotation_id".to_string(),
+                0x100..=0x1ff => "read_type".to_string(),
+                x if x >= 0x7_0000_0000 => "invalid_brickcolor".to_string(),
+                x => format!("{x:x}"),
+            };
+            *stats.entry(format!("bytes_dec_err_{class}")).or_insert(0) += 1;
             if bytes.is_empty() {
                 o.oracle.push("zero bytes were rejected".into());
             }
         }
         Dec::Panic => o.oracle.push(format!("the reader panicked on {} bytes", bytes.len())),
-        Dec::Abort => o.oracle.push(format!(
-            "alloc-abort the reader aborted the process (allocation sized by an unchecked length field) on {} bytes",
+        Dec::Abort => o.other.push(format!(
+            "C13 alloc-abort the reader aborted the process (allocation sized by an unchecked length field) on {} bytes",
             bytes.len()
         )),
     }
@@ -852,7 +860,7 @@ pub fn cli(args: &[String]) -> bool {
                                 }
                                 run_map(&a, &mut stats)
                             }
-                            Err(e) => CaseOut { obs: vec![format!("BADCASE {e}")], oracle: vec![] },
+                            Err(e) => CaseOut { obs: vec![format!("BADCASE {e}")], oracle: vec![], other: vec![] },
                         }
                     }
                     "bytes" => {
@@ -862,7 +870,16 @@ pub fn cli(args: &[String]) -> bool {
                         if b.len() >= 8 && distinct.insert(lines.join("\n")) {
                             *stats.entry("distinct_nontrivial".into()).or_insert(0) += 1;
                         }
-                        run_bytes(b, decs.next().expect("one result per bytes case"), &mut stats)
+                        let mut r = run_bytes(b, decs.next().expect("one result per bytes case"), &mut stats);
+                        // `expect <k (name value){k}>`: the value the blob is documented to describe
+                        if let Some(want) = lines.iter().find_map(|l| l.strip_prefix("expect ")) {
+                            *stats.entry("cases_with_expected_value".into()).or_insert(0) += 1;
+                            let got = r.obs[0].strip_prefix("dec OK ").unwrap_or("<not decoded>").to_string();
+                            if got.split_whitespace().collect::<Vec<_>>() != want.split_whitespace().collect::<Vec<_>>() {
+                                r.oracle.push(format!("a documented blob does not decode to the value it describes: expected `{}` got `{}`", &want[..want.len().min(160)], &r.obs[0][..r.obs[0].len().min(160)]));
+                            }
+                        }
+                        r
                     }
                     "bricksweep" => {
                         let ok: Vec<String> = (0..=u16::MAX)
@@ -870,16 +887,16 @@ pub fn cli(args: &[String]) -> bool {
                             .map(|k| format!("{k:x}"))
                             .collect();
                         *stats.entry("brickcolor_numbers".into()).or_insert(0) += ok.len() as u64;
-                        CaseOut { obs: vec![format!("bricks {}", ok.join(" "))], oracle: vec![] }
+                        CaseOut { obs: vec![format!("bricks {}", ok.join(" "))], oracle: vec![], other: vec![] }
                     }
                     "vec3" | "rot" | "fromid" => {
                         *stats.entry("cases_rotation_primitive".into()).or_insert(0) += 1;
                         match run_prim(first) {
-                            Ok(s) => CaseOut { obs: vec![s], oracle: vec![] },
-                            Err(e) => CaseOut { obs: vec![format!("BADCASE {e}")], oracle: vec![] },
+                            Ok(s) => CaseOut { obs: vec![s], oracle: vec![], other: vec![] },
+                            Err(e) => CaseOut { obs: vec![format!("BADCASE {e}")], oracle: vec![], other: vec![] },
                         }
                     }
-                    _ => CaseOut { obs: vec![format!("BADCASE unknown kind `{kind}`")], oracle: vec![] },
+                    _ => CaseOut { obs: vec![format!("BADCASE unknown kind `{kind}`")], oracle: vec![], other: vec![] },
                 };
                 writeln!(obs, "case {id}").unwrap();
                 for o in &r.obs {
@@ -889,6 +906,10 @@ pub fn cli(args: &[String]) -> bool {
                 for o in &r.oracle {
                     writeln!(orc, "{id} C14 {o}").unwrap();
                 }
+                for o in &r.other {
+                    writeln!(orc, "{id} {o}").unwrap();
+                }
+                *stats.entry("other_property_lines".into()).or_insert(0) += r.other.len() as u64;
                 *stats.entry("oracle_lines".into()).or_insert(0) += r.oracle.len() as u64;
             }
             stats.insert("cases".into(), cases.len() as u64);
